@@ -6,7 +6,7 @@ _TB02 = _md._TB
 ENTRY = {
     "C05": {
         "props": "Props/C05.v", "pkg": "c05", "check_module": "Check.SyncerCheck",
-        "coq_files": ["Model/Types.v", "Model/Syncer.v", "Proofs/SyncerProofs.v", "Check/SyncerCheck.v", "Props/C05.v"],
+        "coq_files": ["Model/Types.v", "Model/Syncer.v", "Model/SyncerOld.v", "Proofs/SyncerProofs.v", "Proofs/SyncerOldProofs.v", "Check/SyncerCheck.v", "Props/C05.v"],
         "n_quick": 8, "n_thorough": 400, "shards_thorough": 16,
         "trusted_base": _TB02 + [
             "datastore contract: a returned Put/Commit is durable, a batch commit (the four records of one block) is atomic; crashes are cut between recorded datastore writes (harness/doubles/crashds) and a fresh real Manager is booted on the materialised image",
@@ -14,8 +14,8 @@ ENTRY = {
         ],
         "assumptions": ["process-death crash model: whole atomic datastore writes are lost, never part of one; cache files are not torn (C04/F6 covers torn cache files)"],
         "design_ref": "DESIGN.md 3 (C05), 2.5",
-        "technique": "Coq invariant proof by induction over histories with crashes (write lists of Base/KV.v, every crash prefix of every application, crashes during start-up, unbounded nesting) + kernel-checked counter-examples + exhaustive crash-prefix enumeration against the real block.Manager on a recording datastore, compared with the model by vm_compute",
-        "level_text": "Machine-checked (Coq 8.16.1, every theorem closed under the global context). C05_recovery_refuted: kernel-checked witness that recovery as worded is FALSE of the code (known finding crash-after-state-before-block, F7: the process dies after the state write and before the block save). C05_resync_refuted: kernel-checked witness of a SECOND defect found while attempting the proof (known finding incomplete-stale-cache-files-after-crash: cache files of an earlier clean stop make the restarted node drop both parts of the next block as seen and never apply them). Both are reproduced on the real code by the Go oracle on every run. C05_recovery_partial (PROVED, unbounded): for every execution function, genesis, valid proposer chain and every history of chain events, clean restarts, crashes after ANY number of datastore writes of ANY event and crashes during start-up, in any number and nesting, in which no crash lands at write index 1 of an application (decidable guard no_bad_crash): the node is running and holds exactly a prefix of the proposer's chain - the proposer's block at every height up to the recorded height, state.height = height, state = the proposer's state there. NOT PROVED, only tested: that after a restart the node goes on to apply everything delivered afterwards (false with stale cache files - refuted above; without them it is checked by the Go oracle on every generated history: all events are delivered again after each crash and the node must reach the full chain).",
-        "level_note": "Trusted: Coq kernel + vm_compute; model tied to the code differentially (8 base chains x all crash prefixes ~ 150 histories quick; 400 base chains thorough); progress after restart is tested, not proved; datastore contract (durable Put, atomic batch); cache files assumed not torn.",
+        "technique": "Coq invariant proof by induction over histories with crashes (write lists of Base/KV.v, every crash prefix of every application and of every start-up, unbounded nesting) + exhaustive crash-prefix enumeration against the real block.Manager on a recording datastore, compared with the model by vm_compute",
+        "level_text": "Machine-checked (Coq 8.16.1, every theorem closed under the global context), model = the code after the repairs f41125c (block saved before the state) and 5877669 (SyncLoop tries the loaded caches when it starts). C05_recovery_full (PROVED, no guard, unbounded): for every execution function, genesis, valid proposer chain and every history of chain events, clean restarts, crashes after ANY number of datastore writes of ANY event and crashes during start-up (including inside the applications start-up itself performs), in any number and nesting: the node is running and holds exactly a prefix of the proposer's chain - the proposer's block at every height up to the recorded height, state.height = height, state = the proposer's state there. C05_resync_partial (PROVED): after any such past, a clean suffix that delivers, in any order, header and data of the not yet applied blocks up to m brings the node to height >= initial+m-1 - under the guard distinct_commitmentsb C, i.e. up to the still-open C02 finding (equal non-empty tx lists); nothing else is missing. The two defects found earlier (crash-after-state-before-block, incomplete-stale-cache-files-after-crash) are FIXED in /repo; their kernel-checked witnesses are kept as Examples before_the_repair_* on the frozen old model (Model/SyncerOld.v), and their replay witnesses must pass on every run.",
+        "level_note": "Trusted: Coq kernel + vm_compute; model tied to the code differentially (8 base chains x all crash prefixes ~ 150 histories quick; 400 base chains thorough); datastore contract (durable Put, atomic batch); cache files assumed not torn.",
     },
 }
